@@ -243,7 +243,9 @@ static Op gen_pattern_op_unfiltered(Rng& r, bool with_input) {
     itype = 1;
     static const char* const hosts[] = {"example.com", "www.example.com", "sub.example.com", "EXAMPLE.com",
                                         "other.org", "127.0.0.1", "[::1]", "ex\xc3\xa4mple.com"};
-    std::string u = std::string(pickl(r, {"https", "http", "ws", "foo", "https", "ftp", "wss"})) + "://" + pick(r, hosts);
+    std::string cred;
+    if (op.args[1] && (*op.args[1] == "user" || *op.args[1] == "{user}?")) cred = r.chance(1, 2) ? "user@" : "User@";  // case of a literal username
+    std::string u = std::string(pickl(r, {"https", "http", "ws", "foo", "https", "ftp", "wss"})) + "://" + cred + pick(r, hosts);
     if (r.chance(1, 10)) u = std::string("file://") + pickl(r, {"", "localhost", "host"});
     if (r.chance(1, 4)) u += pickl(r, {":443", ":8080", ":80"});
     u += gen_in_path(r);
@@ -253,6 +255,11 @@ static Op gen_pattern_op_unfiltered(Rng& r, bool with_input) {
     if (r.chance(1, 10)) {
       u = gen_in_path(r);
       op.args[10] = "https://example.com/base/";
+    }
+    if (r.chance(1, 20)) {
+      // the empty reference: denotes the base without its fragment - or nothing at all if the base has an opaque path
+      u = pickl(r, {"", " ", "\t", "#", "?"});
+      op.args[10] = pickl(r, {"https://example.com/a/b?q=1#frag", "https://example.com/books#x", "mailto:user@example.com", "foo:opaque#f", "https://example.com/"});
     }
     if (r.chance(1, 14)) {
       // a relative reference WITHOUT any base: it denotes no URL, so nothing can match it
@@ -505,8 +512,11 @@ static Op gen_pair_op(Rng& r, std::string& kind) {
     // stays and canonicalises exactly as it does next to a non-special protocol
     kind = "port0";
     static const char* const pp[][2] = {{"https", "0443"}, {"http", "080"}, {"ws", "0080"}, {"wss", "00443"}, {"ftp", "021"},
-                                        {"https", "00080"}, {"http", "00443"}};
-    auto& e = pp[r.below(7)];
+                                        {"https", "00080"}, {"http", "00443"},
+                                        // spellings that canonicalise to a special scheme but are not the scheme string itself:
+                                        // the Standard elides the default port only for the literal strings
+                                        {"{https}", "443"}, {"http\\s", "443"}, {"{ws}", "80"}, {"HTTPS", "443"}, {"{http}", "80"}, {"ft{p}", "21"}};
+    auto& e = pp[r.below(13)];
     op.args[0] = e[0];
     op.args[4] = e[1];
     if (r.chance(1, 2)) op.args[3] = "example.com";
@@ -565,9 +575,12 @@ static Op gen_pair_op(Rng& r, std::string& kind) {
   int n = r.below(4);
   for (int i = 0; i < n; i++) b += std::string("/") + pick(r, dirs);
   b += r.chance(1, 4) ? "" : std::string("/") + pickl(r, {"index.html", "c", "file(1)", "", "x:y"});
-  if (r.chance(1, 5)) b += "?q=1";
-  if (r.chance(1, 6)) b += "#frag";
+  if (r.chance(1, 5)) b += r.chance(1, 3) ? "?" : "?q=1";
+  if (r.chance(1, 6)) b += r.chance(1, 3) ? "#" : "#frag";
   op.args[8] = b;
+  if (r.chance(1, 6)) {  // something after the pathname is given as well, so that query / fragment of the base are looked at
+    if (r.chance(1, 2)) op.args[7] = "h"; else op.args[6] = "s=1";
+  }
   if (r.chance(1, 4)) {
     // protocol given as well: nothing but the directory of the base's path is used any more
     kind = "inherit_proto";
@@ -775,6 +788,13 @@ static bool pattern_coherence(const Op& op, const std::string& obs, std::string&
   if (m != e) {
     why = "match()=" + m + " but exec()=" + e;
     return false;
+  }
+  {
+    std::string ed = snap_field(obs, "exec.digest"), md = snap_field(obs, "match.digest");
+    if (!ed.empty() && !md.empty() && ed != md) {
+      why = "history: match() called after exec() on the same pattern object reports different component inputs / groups than exec() did";
+      return false;
+    }
   }
   {
     std::string again = snap_field(obs, "test.again"), fresh = snap_field(obs, "test.fresh");
@@ -1053,7 +1073,13 @@ static Result execute(const Plan& p, Stats& st) {
   } else if (p.property == "C15" && p.cfg_s("pair") == "badbase" && !ops.empty()) {
     hs.off();
     Hist<ada::url_aggregator> h1;
+    {  // history: a construction with a good base first, then the bad one (twice: A above already was one attempt)
+      Op good = ops[0];
+      good.args[8] = "https://good.example/dir/file";
+      (void)exec_op(good, h1);
+    }
     std::string a = exec_op(ops[0], h1).text;
+    if (a.find("construct=ok") == std::string::npos) a = exec_op(ops[0], h1).text;  // same unparsable base once more
     st.add("pair.badbase.checked");
     bool unparsable = ops[0].args.size() > 8 && ops[0].args[8] && !ada::parse<ada::url_aggregator>(*ops[0].args[8]);
     if (unparsable && a.find("construct=ok") != std::string::npos) {
